@@ -207,3 +207,8 @@ def programs(pop, nest):
     if nest:
         for tag, p in nested(pop, nest):
             yield p
+
+
+def returns_from_nested_programs(pop):
+    for tag, p in returns_from_nested(pop):
+        yield p
